@@ -1,230 +1,148 @@
 /-
   C18 — date serials and date functions follow the 1900 date system.
 
-  Theorems are about `Model.C18` (the statement-by-statement mirror of utils.py and date.py) against
-  `Spec.C18` (the 1900 system over the Gregorian calendar) and hold for *every* whole serial, every
-  (year, month, day) triple, every month offset.  The civil-calendar bijection they rest on is proved
-  arithmetically in `Lemmas/C18Cal.lean`; the correspondence check ties `Model.C18` to the running code.
+  Property theorems about `Model.C18` (the statement-by-statement mirror of xlfunctions/utils.py and
+  xlfunctions/date.py) against `Spec.C18` (Excel's 1900 date system over the Gregorian calendar).  They
+  hold for *every* whole serial 1 … 2958465 (without Excel's fictitious serial 60), every (year, month, day)
+  triple, every month offset, every WEEKDAY return type.  The proofs are in `Lemmas/C18Fn.lean`; they rest
+  on the civil-calendar bijection of `Lemmas/C18Cal.lean`, which is proved arithmetically for all of ℤ
+  (a 400-row year table checked by `decide`, everything else linear arithmetic), not by enumeration.
+  The correspondence check (harness/props/c18.py) ties `Model.C18` to the running code.
+
+  Known findings kept as goals with kernel-checked counter-examples: D45 (time of day on the way
+  datetime → serial), D1803 (30/360 on 28 February), D1804 (basis 1 is the AFB convention).
 -/
-import XlVerif.Lemmas.C18Spec
-import XlVerif.Lemmas.C18Iso
-import Mathlib.Tactic.Linarith
-import Mathlib.Tactic.NormNum
-import Mathlib.Tactic.Ring
-import Mathlib.Algebra.Order.Field.Rat
+import XlVerif.Lemmas.C18Fn
 namespace XlVerif.Props.C18
-open XlVerif XlVerif.Model.C18 XlVerif.Lemmas.C18Cal XlVerif.Lemmas.C18Spec XlVerif.Lemmas.C18SpecCal
+open XlVerif XlVerif.Model.C18
+open XlVerif.Lemmas.C18Cal (Valid)
+open XlVerif.Lemmas.C18Spec (toSpec)
+open XlVerif.Lemmas.C18Fn (IsSerial dayOf dateOf serialRes rowOK tableOK)
 open XlVerif.Spec.C18 (Date ordinal daysBeforeYear serialOf serialOfOrdinal nextDay IsDateOf)
 
-/-! ### The serial ↔ date conversion on whole days -/
+/-! ### The civil calendar of the model: a bijection between ℤ and the dates of the calendar -/
 
-/-- the whole serials that denote a day: 1 … 2958465 without Excel's fictitious 29 February 1900 -/
-abbrev IsSerial (n : Int) : Prop := 1 ≤ n ∧ n ≤ 2958465 ∧ n ≠ 60
+/-- `civil_bijection`: for every day count `z` (all of ℤ, no enumeration) civil-from-days yields a date
+    of the proleptic Gregorian calendar that days-from-civil maps back to `z`, and every date of the
+    calendar is reached: the two conversions are mutually inverse -/
+theorem civil_bijection :
+    (∀ z : Int, Valid (civilFromDays z) ∧ daysFromCivil (civilFromDays z) = z) ∧
+    (∀ c : YMD, Valid c → civilFromDays (daysFromCivil c) = c) :=
+  ⟨fun z => ⟨Lemmas.C18Cal.civil_valid z, Lemmas.C18Cal.days_civil z⟩, Lemmas.C18Cal.civil_days⟩
 
-/-- days from 1900-01-01 to the day of serial `n` -/
-def dayOf (n : Int) : Int := n - (if n ≥ 60 then 2 else 1)
+example : Valid ⟨2024, 2, 29⟩ ∧ ¬ Valid ⟨1900, 2, 29⟩ ∧ Valid ⟨-400, 2, 29⟩ := by decide
 
-/-- the calendar date the model assigns to serial `n` -/
-def dateOf (n : Int) : Date := toSpec (DT.ymd ⟨dayOf n, 0⟩)
+/-! ### The reference (`Spec.C18`): the closed form is the 1900 system of the statement -/
 
-theorem minDay_eq : minDay = -693595 := rfl
-theorem maxDay_eq : maxDay = 2958463 := rfl
+/-- the three anchors of the statement -/
+example : serialOf ⟨1900, 1, 1⟩ = 1 ∧ serialOf ⟨1900, 2, 28⟩ = 59 ∧ serialOf ⟨1900, 3, 1⟩ = 61 := by decide
 
-theorem mkDT_ok (d : Int) (s : Rat) (h0 : -693595 ≤ d) (h1 : d ≤ 2958463) : mkDT d s = .ok ⟨d, s⟩ := by
-  unfold mkDT; rw [if_neg (by rw [minDay_eq, maxDay_eq]; omega)]
+/-- the day after a date of the calendar is a date of the calendar, and its serial is one more —
+    except after 1900-02-28, where Excel's fictitious leap day makes it two more -/
+theorem serialOf_nextDay (c : Date) (hv : c.Valid) :
+    (nextDay c).Valid ∧
+    serialOf (nextDay c) = if c = ⟨1900, 2, 28⟩ then serialOf c + 2 else serialOf c + 1 := by
+  have h := Lemmas.C18SpecCal.nextDay_spec c hv
+  refine ⟨h.1, ?_⟩
+  have hinj : ordinal c = 693654 → c = ⟨1900, 2, 28⟩ := by
+    intro ho
+    apply Lemmas.C18SpecCal.serialOf_injective c ⟨1900, 2, 28⟩ hv (by decide)
+    unfold serialOf; rw [ho]; decide
+  unfold serialOf
+  rw [h.2]
+  unfold serialOfOrdinal
+  simp only []
+  by_cases hc : c = ⟨1900, 2, 28⟩
+  · subst hc; decide
+  · rw [if_neg hc]
+    have : ordinal c ≠ 693654 := fun ho => hc (hinj ho)
+    split <;> split <;> omega
 
-theorem number_to_datetime_whole (n : Int) (h : IsSerial n) :
-    numberToDatetime (.int n) = .ok ⟨dayOf n, 0⟩ := by
-  rw [numberToDatetime_int]; unfold dayOf
-  apply mkDT_ok <;> split <;> omega
+example : (⟨2023, 12, 31⟩ : Date).Valid ∧ nextDay ⟨2023, 12, 31⟩ = ⟨2024, 1, 1⟩
+    ∧ nextDay ⟨2024, 2, 28⟩ = ⟨2024, 2, 29⟩ ∧ nextDay ⟨2023, 2, 28⟩ = ⟨2023, 3, 1⟩ := by decide
+
+/-- the serial is strictly increasing along the calendar; in particular no two dates share a serial -/
+theorem serialOf_strictMono (a b : Date) (ha : a.Valid) (hb : b.Valid) (h : a.lt b) :
+    serialOf a < serialOf b := Lemmas.C18SpecCal.serialOf_lt a b ha hb h
+
+theorem serialOf_injective (a b : Date) (ha : a.Valid) (hb : b.Valid) (h : serialOf a = serialOf b) :
+    a = b := Lemmas.C18SpecCal.serialOf_injective a b ha hb h
+
+example : (⟨2020, 1, 31⟩ : Date).Valid ∧ (⟨2020, 2, 1⟩ : Date).Valid ∧ (⟨2020, 1, 31⟩ : Date).lt ⟨2020, 2, 1⟩ := by
+  decide
+
+/-! ### The serial ↔ date conversion of the code on whole days -/
 
 /-- serial → date → serial is the identity on every whole serial -/
 theorem serial_roundtrip (n : Int) (h : IsSerial n) :
     (numberToDatetime (.int n)).map datetimeToNumber = .ok (n : Rat) := by
-  rw [number_to_datetime_whole n h]
-  unfold Res.map dayOf
-  simp only []
-  rw [datetimeToNumber_whole]
-  congr 2
-  split <;> split <;> omega
+  apply Lemmas.C18Fn.serial_roundtrip <;> assumption
 
 /-- date → serial → date is the identity on every day 1900-01-01 … 9999-12-31 -/
 theorem datetime_roundtrip (d : Int) (h0 : 0 ≤ d) (h1 : d ≤ maxDay) :
     numberToDatetime (.flt (datetimeToNumber ⟨d, 0⟩)) = .ok ⟨d, 0⟩ := by
-  rw [datetimeToNumber_whole, numberToDatetime_flt_int, numberToDatetime_int]
-  rw [maxDay_eq] at h1
-  have e : (d + (if d > 58 then 2 else 1) - if d + (if d > 58 then 2 else 1) ≥ 60 then 2 else 1) = d := by
-    split <;> split <;> omega
-  rw [e]
-  apply mkDT_ok <;> omega
+  apply Lemmas.C18Fn.datetime_roundtrip <;> assumption
 
 /-- every day of the date system is the day of exactly one serial -/
 theorem serial_onto (d : Int) (h0 : 0 ≤ d) (h1 : d ≤ maxDay) :
     IsSerial (d + (if d > 58 then 2 else 1)) ∧ dayOf (d + (if d > 58 then 2 else 1)) = d := by
-  rw [maxDay_eq] at h1; unfold dayOf IsSerial
-  split <;> (try split) <;> omega
+  apply Lemmas.C18Fn.serial_onto <;> assumption
 
 /-- the conversion is strictly monotone in both directions -/
 theorem serial_monotone (n n' : Int) (h : IsSerial n) (h' : IsSerial n') (hlt : n < n') :
     dayOf n < dayOf n' := by
-  unfold dayOf; split <;> split <;> omega
+  apply Lemmas.C18Fn.serial_monotone <;> assumption
 
 theorem datetime_monotone (d d' : Int) (hlt : d < d') :
     datetimeToNumber ⟨d, 0⟩ < datetimeToNumber ⟨d', 0⟩ := by
-  rw [datetimeToNumber_whole, datetimeToNumber_whole, Rat.intCast_lt_intCast]
-  split <;> split <;> omega
+  apply Lemmas.C18Fn.datetime_monotone <;> assumption
 
-example : IsSerial 43831 := by decide
+example : IsSerial 43831 ∧ IsSerial 1 ∧ IsSerial 59 ∧ IsSerial 61 ∧ IsSerial 2958465 ∧ ¬ IsSerial 60 := by decide
 
 /-- the date of a serial is a date of the Gregorian calendar whose 1900-system serial is `n`:
     together with `serialOf_injective` this determines it -/
 theorem serial_date_spec (n : Int) (h : IsSerial n) : IsDateOf n (dateOf n) := by
-  have hs := spec_of_civil (dayOf n + epochCivil)
-  unfold dateOf DT.ymd
-  simp only []
-  refine ⟨hs.1, ?_⟩
-  unfold serialOf
-  rw [hs.2]
-  unfold serialOfOrdinal dayOf epochCivil
-  simp only []
-  split <;> split <;> omega
+  apply Lemmas.C18Fn.serial_date_spec <;> assumption
 
 /-- the anchors of the statement -/
 example : dateOf 1 = ⟨1900, 1, 1⟩ := by decide
 example : dateOf 59 = ⟨1900, 2, 28⟩ := by decide
 example : dateOf 61 = ⟨1900, 3, 1⟩ := by decide
 example : dateOf 2958465 = ⟨9999, 12, 31⟩ := by decide
-example : serialOf ⟨1900, 1, 1⟩ = 1 ∧ serialOf ⟨1900, 2, 28⟩ = 59 ∧ serialOf ⟨1900, 3, 1⟩ = 61 := by decide
 
 /-- consecutive serials are consecutive calendar days (61 follows 59: serial 60 is no day) -/
 theorem serial_succ (n : Int) (h : IsSerial n) (h' : IsSerial (n + 1)) :
     dateOf (n + 1) = nextDay (dateOf n) := by
-  have h1 := serial_date_spec n h
-  have h2 := serial_date_spec (n + 1) h'
-  have hn := nextDay_spec (dateOf n) h1.1
-  apply serialOf_injective _ _ h2.1 hn.1
-  rw [h2.2]
-  have := h1.2
-  unfold serialOf at this ⊢
-  rw [hn.2]
-  unfold serialOfOrdinal at this ⊢
-  simp only [] at this ⊢
-  split at this <;> split <;> omega
+  apply Lemmas.C18Fn.serial_succ <;> assumption
 
 theorem serial_succ_leap_gap : dateOf 61 = nextDay (dateOf 59) := by decide
 
 /-- the reference serial is strictly increasing along the calendar and hits every whole serial but 60 -/
 theorem serialOf_bijection :
     (∀ a b : Date, a.Valid → b.Valid → a.lt b → serialOf a < serialOf b) ∧
-    (∀ n : Int, IsSerial n → ∃ c : Date, c.Valid ∧ serialOf c = n) :=
-  ⟨serialOf_lt, fun n h => ⟨dateOf n, serial_date_spec n h⟩⟩
-
+    (∀ n : Int, IsSerial n → ∃ c : Date, c.Valid ∧ serialOf c = n) := by
+  apply Lemmas.C18Fn.serialOf_bijection <;> assumption
 
 /-! ### YEAR, MONTH, DAY of every serial are the Gregorian fields -/
 
-theorem serialDate_whole (n : Int) (h : IsSerial n) : serialDate (.int n) = .ok ⟨dayOf n, 0⟩ := by
-  unfold serialDate pyInt; exact number_to_datetime_whole n h
-
 /-- the year of a serial of the date system lies in 1900 … 9999 -/
 theorem year_range (n : Int) (h : IsSerial n) : 1900 ≤ (dateOf n).y ∧ (dateOf n).y ≤ 9999 := by
-  have hs := serial_date_spec n h
-  have hb := ordinal_bounds (dateOf n) hs.1
-  have hser := hs.2
-  unfold serialOf serialOfOrdinal at hser
-  simp only [] at hser
-  have e1 : daysBeforeYear 1900 = 693595 := by decide
-  have e2 : daysBeforeYear 10000 = 3652059 := by decide
-  constructor
-  · apply Classical.byContradiction; intro hc
-    have := dby_mono ((dateOf n).y + 1) 1900 (by omega)
-    split at hser <;> omega
-  · apply Classical.byContradiction; intro hc
-    have := dby_mono 10000 (dateOf n).y (by omega)
-    split at hser <;> omega
-
-theorem year_spec (n : Int) (h : IsSerial n) : YEAR (.int n) = .ok (dateOf n).y := by
-  have hr := year_range n h
-  unfold YEAR
-  rw [serialDate_whole n h]
-  unfold Res.bind
-  simp only []
-  have e : (DT.ymd ⟨dayOf n, 0⟩).y = (dateOf n).y := rfl
-  rw [e, if_neg (by omega)]
-
-theorem month_spec (n : Int) (h : IsSerial n) : MONTH (.int n) = .ok (dateOf n).m := by
-  unfold MONTH; rw [serialDate_whole n h]; rfl
-
-theorem day_spec (n : Int) (h : IsSerial n) : DAY (.int n) = .ok (dateOf n).d := by
-  unfold DAY; rw [serialDate_whole n h]; rfl
+  apply Lemmas.C18Fn.year_range <;> assumption
 
 /-- `fields_spec`: for every serial 61 … 2958465 (and 1 … 59) YEAR, MONTH and DAY return the fields of
     the one Gregorian date whose 1900-system serial is `n` -/
 theorem fields_spec (n : Int) (h : IsSerial n) :
     ∃ c : Date, IsDateOf n c ∧ (∀ c' : Date, IsDateOf n c' → c' = c) ∧
       YEAR (.int n) = .ok c.y ∧ MONTH (.int n) = .ok c.m ∧ DAY (.int n) = .ok c.d := by
-  refine ⟨dateOf n, serial_date_spec n h, ?_, year_spec n h, month_spec n h, day_spec n h⟩
-  intro c' hc'
-  have hs := serial_date_spec n h
-  exact serialOf_injective c' (dateOf n) hc'.1 hs.1 (by rw [hc'.2, hs.2])
-
-example : IsSerial 61 ∧ IsSerial 2958465 := by decide
-
+  apply Lemmas.C18Fn.fields_spec <;> assumption
 
 /-! ### WEEKDAY: every return type is the documented rotation of the ISO weekday -/
 
-/-- a tuple of `WEEKDAY` lists, for Monday … Sunday, the numbers of return type `rt`
-    (in particular `rt` is a documented return type and the tuple has seven entries) -/
-def rowOK (rt : Int) (tup : List Int) : Bool :=
-  (List.range 7).all fun w =>
-    (tup[w]?).isSome && tup[w]? == Spec.C18.weekdayNum rt ((w : Int) + 1)
-
-/-- table obligation on the tuples extracted from date.py: the default is return type 1, every row is
-    the rotation its key stands for (so a key outside 1, 2, 3, 11 … 17 cannot occur), and every
-    documented return type has a row -/
-def tableOK : Bool :=
-  rowOK 1 Gen.weekdayDefault &&
-  (Gen.weekdayTables.all fun p => rowOK p.1 p.2) &&
-  ([1, 2, 3, 11, 12, 13, 14, 15, 16, 17].all fun k => (Gen.weekdayTables.lookup k).isSome)
-
+/-- table obligation on the tuples extracted from date.py (`Gen.C18Date`): the default tuple is return
+    type 1, every row lists for Monday … Sunday the numbers of the return type its key stands for (so a
+    key outside 1, 2, 3, 11 … 17 or a tuple that is too short cannot occur), and every documented return
+    type has a row.  Re-checked against what the code says now on every run. -/
 theorem weekday_tables : tableOK = true := by decide
-
-theorem lookup_mem {l : List (Int × List Int)} {k : Int} {v : List Int} (h : l.lookup k = some v) :
-    (k, v) ∈ l := by
-  induction l with
-  | nil => simp [List.lookup] at h
-  | cons p t ih =>
-    obtain ⟨a, b⟩ := p
-    by_cases hk : k = a
-    · subst hk
-      simp [List.lookup] at h
-      subst h; simp
-    · have : (k == a) = false := by simp [hk]
-      simp [List.lookup, this] at h
-      exact List.mem_cons_of_mem _ (ih h)
-
-theorem rowOK_get {rt : Int} {tup : List Int} (h : rowOK rt tup = true) (w : Int) (h0 : 0 ≤ w) (h6 : w ≤ 6) :
-    ∃ v, Spec.C18.weekdayNum rt (w + 1) = some v ∧ pick tup w = .ok v := by
-  unfold rowOK at h
-  rw [List.all_eq_true] at h
-  have := h w.toNat (by rw [List.mem_range]; omega)
-  have e : ((w.toNat : Nat) : Int) = w := by omega
-  rw [e, Bool.and_eq_true] at this
-  obtain ⟨h1, h2⟩ := this
-  have h2 := eq_of_beq h2
-  unfold pick
-  cases hg : tup[w.toNat]? with
-  | none => rw [hg] at h1; simp at h1
-  | some v => exact ⟨v, by rw [← h2, hg], rfl⟩
-
-theorem pyWeekday_spec (n : Int) (_h : IsSerial n) :
-    pyWeekday ⟨dayOf n, 0⟩ = Spec.C18.isoWeekday (dateOf n) - 1 := by
-  have hs := spec_of_civil (dayOf n + epochCivil)
-  have e : ordinal (dateOf n) = dayOf n + epochCivil - 305 := hs.2
-  unfold pyWeekday ordinalOfDay Spec.C18.isoWeekday
-  rw [e]; unfold epochCivil; simp only []; omega
-
-theorem isoWeekday_range (c : Date) : 1 ≤ Spec.C18.isoWeekday c ∧ Spec.C18.isoWeekday c ≤ 7 := by
-  unfold Spec.C18.isoWeekday; omega
 
 /-- `weekday_types`: for every serial and every return type — omitted, valid or invalid — WEEKDAY is
     the reference numbering of the date's ISO weekday, or #NUM! -/
@@ -233,497 +151,112 @@ theorem weekday_spec (n : Int) (h : IsSerial n) (rt : Option Int) :
       match Spec.C18.weekdayNum (rt.getD 1) (Spec.C18.isoWeekday (dateOf n)) with
       | some v => .ok v
       | none => .err .num := by
-  have htab := weekday_tables
-  unfold tableOK at htab
-  rw [Bool.and_eq_true, Bool.and_eq_true] at htab
-  obtain ⟨⟨hdef, hrows⟩, hkeys⟩ := htab
-  have hw := pyWeekday_spec n h
-  have hr := isoWeekday_range (dateOf n)
-  have hiso : Spec.C18.isoWeekday (dateOf n) = pyWeekday ⟨dayOf n, 0⟩ + 1 := by omega
-  unfold WEEKDAY
-  rw [serialDate_whole n h]
-  unfold Res.bind
-  simp only []
-  rw [hiso]
-  cases rt with
-  | none =>
-    simp only [Option.map, Option.getD]
-    obtain ⟨v, hv, hp⟩ := rowOK_get hdef (pyWeekday ⟨dayOf n, 0⟩) (by omega) (by omega)
-    rw [hv, hp]
-  | some r =>
-    simp only [Option.map, Option.getD, pyInt]
-    cases hl : Gen.weekdayTables.lookup r with
-    | some tup =>
-      simp only []
-      have hmem := lookup_mem hl
-      rw [List.all_eq_true] at hrows
-      have hrow := hrows (r, tup) hmem
-      simp only [] at hrow
-      obtain ⟨v, hv, hp⟩ := rowOK_get hrow (pyWeekday ⟨dayOf n, 0⟩) (by omega) (by omega)
-      rw [hv, hp]
-    | none =>
-      simp only []
-      have : Spec.C18.weekdayNum r (pyWeekday ⟨dayOf n, 0⟩ + 1) = none := by
-        unfold Spec.C18.weekdayNum
-        have hk : ∀ k ∈ [1, 2, 3, 11, 12, 13, 14, 15, 16, 17], r ≠ k := by
-          intro k hk hrk
-          rw [List.all_eq_true] at hkeys
-          have := hkeys k hk
-          rw [← hrk, hl] at this
-          simp at this
-        have n1 := hk 1 (by simp); have n2 := hk 2 (by simp); have n3 := hk 3 (by simp)
-        have n11 := hk 11 (by simp); have n12 := hk 12 (by simp); have n13 := hk 13 (by simp)
-        have n14 := hk 14 (by simp); have n15 := hk 15 (by simp); have n16 := hk 16 (by simp)
-        have n17 := hk 17 (by simp)
-        rw [if_neg n1, if_neg n2, if_neg n3, if_neg (by omega)]
-      rw [this]
+  apply Lemmas.C18Fn.weekday_spec <;> assumption
 
+example : Spec.C18.weekdayNum 1 7 = some 1 ∧ Spec.C18.weekdayNum 2 1 = some 1 ∧ Spec.C18.weekdayNum 3 1 = some 0
+    ∧ Spec.C18.weekdayNum 12 2 = some 1 ∧ Spec.C18.weekdayNum 16 6 = some 1 ∧ Spec.C18.weekdayNum 17 7 = some 1
+    ∧ Spec.C18.weekdayNum 4 1 = none ∧ Spec.C18.isoWeekday ⟨2000, 1, 1⟩ = 6 := by decide
 
 /-! ### ISOWEEKNUM -/
 
-theorem ordinal_jan1 (y : Int) : ordinal ⟨y, 1, 1⟩ = daysBeforeYear y + 1 := by
-  rw [ordinal_def]; simp [Spec.C18.cumDays, adj]
-
-theorem isoWeek1Monday_eq (y : Int) : isoWeek1Monday y = Lemmas.C18Iso.w1 (daysBeforeYear y + 1) := by
-  unfold isoWeek1Monday ymd2ord Lemmas.C18Iso.w1
-  have := ordinal_eq y 1 1 (by omega) (by omega)
-  rw [ordinal_jan1] at this
-  simp only []
-  rw [← this]
-
 /-- Python's `isocalendar` week of any day is the ISO 8601 week of its Gregorian date -/
 theorem isoWeek_spec (day : Int) : isoWeek ⟨day, 0⟩ = Spec.C18.isoWeek (toSpec (DT.ymd ⟨day, 0⟩)) := by
-  have hs := spec_of_civil (day + epochCivil)
-  have hb := ordinal_bounds _ hs.1
-  have hst := dby_step (toSpec (DT.ymd ⟨day, 0⟩)).y
-  have hst' := dby_step ((toSpec (DT.ymd ⟨day, 0⟩)).y - 1)
-  have e : ordinal (toSpec (DT.ymd ⟨day, 0⟩)) = ordinalOfDay day := by
-    unfold DT.ymd ordinalOfDay; simp only []; rw [hs.2]; unfold epochCivil; omega
-  have ey : (DT.ymd ⟨day, 0⟩).y = (toSpec (DT.ymd ⟨day, 0⟩)).y := rfl
-  have hb' : daysBeforeYear (toSpec (DT.ymd ⟨day, 0⟩)).y + 1 ≤ ordinalOfDay day ∧
-      ordinalOfDay day ≤ daysBeforeYear ((toSpec (DT.ymd ⟨day, 0⟩)).y + 1) := by
-    rw [← e]; exact hb
-  unfold isoWeek Spec.C18.isoWeek Spec.C18.isoWeekday
-  simp only []
-  rw [e, ey, isoWeek1Monday_eq, isoWeek1Monday_eq, isoWeek1Monday_eq]
-  simp only [ordinal_jan1]
-  generalize (toSpec (DT.ymd ⟨day, 0⟩)).y = y at *
-  generalize ordinalOfDay day = o at *
-  have e1 : y - 1 + 1 = y := by omega
-  rw [e1] at hst'
-  have h3 : (daysBeforeYear (y + 1) + 1) - (daysBeforeYear y + 1) = 365 ∨
-      (daysBeforeYear (y + 1) + 1) - (daysBeforeYear y + 1) = 366 := by split at hst <;> omega
-  have h4 : (daysBeforeYear y + 1) - (daysBeforeYear (y - 1) + 1) = 365 ∨
-      (daysBeforeYear y + 1) - (daysBeforeYear (y - 1) + 1) = 366 := by split at hst' <;> omega
-  have key := Lemmas.C18Iso.iso_arith o (daysBeforeYear (y - 1) + 1) (daysBeforeYear y + 1)
-    (daysBeforeYear (y + 1) + 1) hb'.1 (by omega) h3 h4
-  rw [key]
-  -- the year of the Thursday, as the specification names it
-  by_cases c1 : o + 4 - ((o - 1) % 7 + 1) < daysBeforeYear y + 1
-  · simp only [if_pos c1]
-  · simp only [if_neg c1]
-    by_cases c2 : o + 4 - ((o - 1) % 7 + 1) ≥ daysBeforeYear (y + 1) + 1
-    · simp only [if_pos c2]
-    · simp only [if_neg c2]
-
-theorem dtInt_serial (n : Int) (h : IsSerial n) : dtInt ⟨dayOf n, 0⟩ = n := by
-  rw [dtInt_whole]; unfold dayOf; split <;> split <;> omega
+  apply Lemmas.C18Fn.isoWeek_spec <;> assumption
 
 /-- `isoweek_spec`: ISOWEEKNUM of every serial is the ISO 8601 week number of its date -/
 theorem isoweeknum_spec (n : Int) (h : IsSerial n) :
     ISOWEEKNUM ⟨dayOf n, 0⟩ = .ok (Spec.C18.isoWeek (dateOf n)) := by
-  unfold ISOWEEKNUM
-  rw [dtInt_serial n h, number_to_datetime_whole n h]
-  unfold Res.map
-  simp only []
-  rw [isoWeek_spec]
-  rfl
+  apply Lemmas.C18Fn.isoweeknum_spec <;> assumption
 
+example : Spec.C18.isoWeek ⟨2021, 1, 3⟩ = 53 ∧ Spec.C18.isoWeek ⟨2021, 1, 4⟩ = 1
+    ∧ Spec.C18.isoWeek ⟨2019, 12, 30⟩ = 1 ∧ Spec.C18.isoWeek ⟨2020, 12, 31⟩ = 53 := by decide
 
 /-! ### DATE -/
 
-/-- days-from-civil is affine in the day of the month -/
-theorem daysFromCivil_day (y m d : Int) : daysFromCivil ⟨y, m, d⟩ = daysFromCivil ⟨y, m, 1⟩ + (d - 1) := by
-  unfold daysFromCivil; simp only []; omega
-
 /-- the closed form of `DATE`: arguments truncated, year rule, month carry by floor division, day offset,
-    then the two range checks of the code (`datetime` exists for years 1 … 9999 only) -/
+    then the range checks of the code (`datetime` exists for years 1 … 9999 only; outside → #NUM!) -/
 theorem DATE_closed (year month day : Num) (hy0 : 0 ≤ pyInt year) (hy1 : pyInt year ≤ 9999) :
     DATE year month day =
       let y' := if pyInt year < 1900 then 1900 + pyInt year else pyInt year
       let ym := Spec.C18.monthShift y' 1 (pyInt month - 1)
-      if ym.1 < 1 ∨ ym.1 > 9999 then .crash .valueError else
+      if ym.1 < 1 ∨ ym.1 > 9999 then .err .num else
       let dd := ordinal ⟨ym.1, ym.2, 1⟩ + (pyInt day - 1) - 693596
-      if dd < -693595 ∨ dd > 2958463 then .crash .overflow else
+      if dd < -693595 ∨ dd > 2958463 then .err .num else
       if dd < 0 then .err .num else .ok ⟨dd, 0⟩ := by
-  have hc := carryYM_eq 1900 1 ((if pyInt year < 1900 then 1900 + pyInt year else pyInt year) - 1900)
-    (pyInt month - 1) (by omega) (by omega)
-  have e : (1900 + ((if pyInt year < 1900 then 1900 + pyInt year else pyInt year) - 1900))
-      = (if pyInt year < 1900 then 1900 + pyInt year else pyInt year) := by omega
-  rw [e] at hc
-  have hy : ¬ ¬ (0 ≤ pyInt year ∧ pyInt year ≤ 9999) := by omega
-  unfold DATE addRel
-  simp only [if_neg hy, hc]
-  have hm : 1 ≤ (Spec.C18.monthShift (if pyInt year < 1900 then 1900 + pyInt year else pyInt year) 1
-      (pyInt month - 1)).2 ∧ (Spec.C18.monthShift (if pyInt year < 1900 then 1900 + pyInt year else pyInt year) 1
-      (pyInt month - 1)).2 ≤ 12 := by
-    unfold Spec.C18.monthShift; simp only []; omega
-  generalize Spec.C18.monthShift (if pyInt year < 1900 then 1900 + pyInt year else pyInt year) 1
-    (pyInt month - 1) = ym at hm ⊢
-  by_cases hr : ym.1 < 1 ∨ ym.1 > 9999
-  · simp only [if_pos hr]
-  · simp only [if_neg hr]
-    have hd : min (daysInMonth ym.1 ym.2) (Option.getD none 1) = 1 := by
-      have := dim_pos ym.1 ym.2
-      rw [dim_eq] at this
-      simp only [Option.getD]; omega
-    have e2 : daysFromCivil ⟨ym.1, ym.2, 1⟩ - epochCivil + (pyInt day - 1)
-        = ordinal ⟨ym.1, ym.2, 1⟩ + (pyInt day - 1) - 693596 := by
-      rw [ordinal_eq _ _ _ hm.1 hm.2]; unfold epochCivil; omega
-    rw [hd, e2]
-    generalize ordinal ⟨ym.1, ym.2, 1⟩ + (pyInt day - 1) - 693596 = dd
-    unfold mkDT
-    rw [minDay_eq, maxDay_eq]
-    by_cases hov : dd < -693595 ∨ dd > 2958463
-    · simp only [if_pos hov]
-    · simp only [if_neg hov]
+  apply Lemmas.C18Fn.DATE_closed <;> assumption
 
-theorem DATE_eq (y m d : Int) (hy0 : 0 ≤ y) (hy1 : y ≤ 9999) :
-    DATE (.int y) (.int m) (.int d) =
-      let y' := if y < 1900 then 1900 + y else y
-      let ym := Spec.C18.monthShift y' 1 (m - 1)
-      if ym.1 < 1 ∨ ym.1 > 9999 then .crash .valueError else
-      let day := ordinal ⟨ym.1, ym.2, 1⟩ + (d - 1) - 693596
-      if day < -693595 ∨ day > 2958463 then .crash .overflow else
-      if day < 0 then .err .num else .ok ⟨day, 0⟩ :=
-  DATE_closed (.int y) (.int m) (.int d) hy0 hy1
-
-/-- observable serial of a function result -/
-def serialRes (r : Res DT) : Res Rat := r.map datetimeToNumber
+example : (0 : Int) ≤ pyInt (.flt (4041 / 2)) ∧ pyInt (.flt (4041 / 2)) ≤ 9999 := by decide +kernel
 
 /-- `date_carry`: for all whole arguments DATE agrees with the reference — months and days outside
-    their ranges carry into the next units, years 0 … 1899 count from 1900, and results before
-    1900-01-01 or years outside 0 … 9999 are #NUM! — as long as the carried date exists as a `datetime`
-    (years 1 … 9999; beyond, the code raises, see `date_carry_overflow`) -/
+    their ranges carry into the next units, years 0 … 1899 count from 1900, and a year outside 0 … 9999
+    or a result outside 1900-01-01 … 9999-12-31 is #NUM! — provided the month offset alone stays within
+    the years 1 … 9999 of a `datetime` (otherwise the code answers #NUM! whatever the day offset) -/
 theorem date_carry (y m d : Int)
     (hrange : 0 ≤ y ∧ y ≤ 9999 →
-      let y' := if y < 1900 then 1900 + y else y
-      let ym := Spec.C18.monthShift y' 1 (m - 1)
-      1 ≤ ym.1 ∧ ym.1 ≤ 9999 ∧ 1 ≤ ordinal ⟨ym.1, ym.2, 1⟩ + (d - 1) ∧
-        ordinal ⟨ym.1, ym.2, 1⟩ + (d - 1) ≤ 3652059) :
+      1 ≤ (Spec.C18.monthShift (if y < 1900 then 1900 + y else y) 1 (m - 1)).1 ∧
+      (Spec.C18.monthShift (if y < 1900 then 1900 + y else y) 1 (m - 1)).1 ≤ 9999) :
     serialRes (DATE (.int y) (.int m) (.int d)) =
       match Spec.C18.date y m d with
       | some s => .ok (s : Rat)
       | none => .err .num := by
-  by_cases hy : 0 ≤ y ∧ y ≤ 9999
-  · have hr := hrange hy
-    rw [DATE_eq y m d hy.1 hy.2]
-    unfold Spec.C18.date
-    have e : (if y < 1900 then y + 1900 else y) = (if y < 1900 then 1900 + y else y) := by split <;> omega
-    simp only [e] at hr ⊢
-    generalize Spec.C18.monthShift (if y < 1900 then 1900 + y else y) 1 (m - 1) = ym at hr ⊢
-    generalize ordinal ⟨ym.1, ym.2, 1⟩ + (d - 1) = o at hr ⊢
-    have h1 : ¬ (ym.1 < 1 ∨ ym.1 > 9999) := by omega
-    have h2 : ¬ (o - 693596 < -693595 ∨ o - 693596 > 2958463) := by omega
-    have h3 : ¬ (y < 0 ∨ y > 9999) := by omega
-    simp only [if_neg h1, if_neg h2, if_neg h3]
-    unfold serialOfOrdinal
-    simp only []
-    by_cases hneg : o - 693596 < 0
-    · have h4 : (if o - 693595 ≥ 60 then o - 693595 + 1 else o - 693595) < 1 := by split <;> omega
-      simp only [if_pos hneg, if_pos h4]; rfl
-    · have h4 : ¬ (if o - 693595 ≥ 60 then o - 693595 + 1 else o - 693595) < 1 := by split <;> omega
-      simp only [if_neg hneg, if_neg h4]
-      unfold serialRes Res.map
-      simp only []
-      rw [datetimeToNumber_whole]
-      congr 2
-      split <;> split <;> omega
-  · have h3 : y < 0 ∨ y > 9999 := by omega
-    have h3' : ¬ (0 ≤ pyInt (.int y) ∧ pyInt (.int y) ≤ 9999) := by unfold pyInt; omega
-    unfold DATE Spec.C18.date
-    simp only [if_pos h3, if_pos h3']
-    rfl
+  apply Lemmas.C18Fn.date_carry <;> assumption
 
-/-- outside `datetime`'s years the code raises instead of returning #NUM! (not covered by the statement) -/
-example : DATE (.int 9999) (.int 12) (.int 32) = .crash .overflow := by decide
-example : DATE (.int 9999) (.int 13) (.int 1) = .crash .valueError := by decide
+/-- D1805 (fixed): a result beyond 9999-12-31 or before year 1 is #NUM!, not a Python exception -/
+example : DATE (.int 9999) (.int 12) (.int 32) = .err .num ∧ DATE (.int 9999) (.int 13) (.int 1) = .err .num
+    ∧ DATE (.int 1900) (.int 1) (.int (-800000)) = .err .num := by decide
 
-/-- non-vacuity of `date_carry`: far out-of-range months and days satisfy its hypothesis -/
-example : (let ym := Spec.C18.monthShift 2009 1 (-400 - 1)
-    1 ≤ ym.1 ∧ ym.1 ≤ 9999 ∧ 1 ≤ ordinal ⟨ym.1, ym.2, 1⟩ + (100000 - 1) ∧
-      ordinal ⟨ym.1, ym.2, 1⟩ + (100000 - 1) ≤ 3652059) := by decide
+/-- non-vacuity of `date_carry`: far out-of-range months satisfy its hypothesis, for every day offset -/
+example : 1 ≤ (Spec.C18.monthShift (if (2009 : Int) < 1900 then 1900 + 2009 else 2009) 1 (-401 - 1)).1 ∧
+    (Spec.C18.monthShift (if (2009 : Int) < 1900 then 1900 + 2009 else 2009) 1 (-401 - 1)).1 ≤ 9999 := by decide
 example : Spec.C18.date 2009 14 1 = some 40210 ∧ Spec.C18.date 2009 1 400 = some 40213
-    ∧ Spec.C18.date 2009 (-1) 1 = some 39753 ∧ Spec.C18.date 1900 1 0 = none := by decide
+    ∧ Spec.C18.date 2009 (-1) 1 = some 39753 ∧ Spec.C18.date 1900 1 0 = none
+    ∧ Spec.C18.date 9999 12 32 = none := by decide
 
 /-- `date_inverse`: DATE(YEAR(n), MONTH(n), DAY(n)) = n for every serial -/
 theorem date_inverse (n : Int) (h : IsSerial n) :
     DATE (.int (dateOf n).y) (.int (dateOf n).m) (.int (dateOf n).d) = .ok ⟨dayOf n, 0⟩ := by
-  have hs := serial_date_spec n h
-  have hyr := year_range n h
-  obtain ⟨⟨hm1, hm12, hd1, hdm⟩, hser⟩ := hs
-  rw [DATE_eq _ _ _ (by omega) (by omega)]
-  have ey : (if (dateOf n).y < 1900 then 1900 + (dateOf n).y else (dateOf n).y) = (dateOf n).y := by
-    rw [if_neg (by omega)]
-  have hshift : Spec.C18.monthShift (dateOf n).y 1 ((dateOf n).m - 1) = ((dateOf n).y, (dateOf n).m) := by
-    unfold Spec.C18.monthShift; apply Prod.ext <;> simp only [] <;> omega
-  have ho : ordinal ⟨(dateOf n).y, (dateOf n).m, 1⟩ + ((dateOf n).d - 1) = ordinal (dateOf n) := by
-    rw [ordinal_def]; show _ = ordinal ⟨(dateOf n).y, (dateOf n).m, (dateOf n).d⟩; rw [ordinal_def]; omega
-  unfold serialOf serialOfOrdinal at hser
-  simp only [] at hser
-  have hday : ordinal (dateOf n) - 693596 = dayOf n := by
-    unfold dayOf; split at hser <;> split <;> omega
-  simp only [ey, hshift, ho, hday]
-  have h1 : ¬ ((dateOf n).y < 1 ∨ (dateOf n).y > 9999) := by omega
-  have h2 : ¬ (dayOf n < -693595 ∨ dayOf n > 2958463) := by unfold dayOf; split <;> omega
-  have h3 : ¬ dayOf n < 0 := by unfold dayOf; split <;> omega
-  simp only [if_neg h1, if_neg h2, if_neg h3]
+  apply Lemmas.C18Fn.date_inverse <;> assumption
 
 theorem date_inverse_serial (n : Int) (h : IsSerial n) :
     serialRes (DATE (.int (dateOf n).y) (.int (dateOf n).m) (.int (dateOf n).d)) = .ok (n : Rat) := by
-  rw [date_inverse n h, ← serial_roundtrip n h, number_to_datetime_whole n h]; rfl
+  apply Lemmas.C18Fn.date_inverse_serial <;> assumption
 
 /-! ### EDATE and EOMONTH -/
 
-theorem ordinal_range (c : Date) (hv : c.Valid) (hy0 : 1 ≤ c.y) (hy1 : c.y ≤ 9999) :
-    1 ≤ ordinal c ∧ ordinal c ≤ 3652059 := by
-  have hb := ordinal_bounds c hv
-  have e1 : daysBeforeYear 1 = 0 := by decide
-  have e2 : daysBeforeYear 10000 = 3652059 := by decide
-  have m1 := dby_mono 1 c.y hy0
-  have m2 := dby_mono (c.y + 1) 10000 (by omega)
-  omega
-
-/-- the `datetime` of a date of the calendar in years 1 … 9999 -/
-theorem dtOfYMD_valid (c : YMD) (hv : Valid c) (hy0 : 1 ≤ c.y) (hy1 : c.y ≤ 9999) (s : Rat) :
-    dtOfYMD c s = .ok ⟨ordinal (toSpec c) - 693596, s⟩ := by
-  have hr := ordinal_range (toSpec c) hv hy0 hy1
-  have ho : ordinal (toSpec c) = daysFromCivil c - 305 := ordinal_eq c.y c.m c.d hv.1 hv.2.1
-  unfold dtOfYMD
-  have e : daysFromCivil c - epochCivil = ordinal (toSpec c) - 693596 := by rw [ho]; unfold epochCivil; omega
-  rw [e]
-  exact mkDT_ok _ _ (by omega) (by omega)
-
-theorem ymd_of_valid (c : YMD) (hv : Valid c) (s : Rat) : DT.ymd ⟨ordinal (toSpec c) - 693596, s⟩ = c := by
-  have ho : ordinal (toSpec c) = daysFromCivil c - 305 := ordinal_eq c.y c.m c.d hv.1 hv.2.1
-  unfold DT.ymd
-  simp only []
-  have e : ordinal (toSpec c) - 693596 + epochCivil = daysFromCivil c := by rw [ho]; unfold epochCivil; omega
-  rw [e]
-  exact civil_days c hv
-
-theorem number_of_date (c : Date) : datetimeToNumber ⟨ordinal c - 693596, 0⟩ = ((serialOf c : Int) : Rat) := by
-  rw [datetimeToNumber_whole]
-  unfold serialOf serialOfOrdinal
-  simp only []
-  congr 1
-  split <;> split <;> omega
-
-theorem day_neg_iff (c : Date) : ordinal c - 693596 < 0 ↔ serialOf c < 1 := by
-  unfold serialOf serialOfOrdinal
-  simp only []
-  split <;> omega
-
-theorem ymd_dateOf (n : Int) : toSpec (DT.ymd ⟨dayOf n, 0⟩) = dateOf n := rfl
-
-theorem addMonths_valid (c : Date) (hv : c.Valid) (k : Int) : (Spec.C18.addMonths c k).Valid := by
-  unfold Spec.C18.addMonths
-  simp only []
-  have hm : 1 ≤ (Spec.C18.monthShift c.y c.m k).2 ∧ (Spec.C18.monthShift c.y c.m k).2 ≤ 12 := by
-    unfold Spec.C18.monthShift; simp only []; omega
-  have hp := dim_pos (Spec.C18.monthShift c.y c.m k).1 (Spec.C18.monthShift c.y c.m k).2
-  obtain ⟨_, _, hd1, _⟩ := hv
-  refine ⟨hm.1, hm.2, ?_, ?_⟩ <;> simp only [] <;> omega
-
-/-- closed form of the common part of EDATE and EOMONTH on a whole serial -/
-theorem edateCore_eq (n k : Int) (h : IsSerial n)
-    (hr : 1 ≤ (Spec.C18.addMonths (dateOf n) k).y ∧ (Spec.C18.addMonths (dateOf n) k).y ≤ 9999) :
-    edateCore ⟨dayOf n, 0⟩ (.int k) =
-      if serialOf (Spec.C18.addMonths (dateOf n) k) < 1 then .err .num
-      else .ok ⟨ordinal (Spec.C18.addMonths (dateOf n) k) - 693596, 0⟩ := by
-  have hs := serial_date_spec n h
-  have hv := addMonths_valid (dateOf n) hs.1 k
-  unfold edateCore
-  rw [dtInt_serial n h, number_to_datetime_whole n h]
-  unfold Res.bind
-  simp only []
-  have ey : (DT.ymd ⟨dayOf n, 0⟩).y = (dateOf n).y := rfl
-  have em : (DT.ymd ⟨dayOf n, 0⟩).m = (dateOf n).m := rfl
-  have ed : (DT.ymd ⟨dayOf n, 0⟩).d = (dateOf n).d := rfl
-  have hc := carryYM_eq (dateOf n).y (dateOf n).m 0 k hs.1.1 hs.1.2.1
-  have e0 : (dateOf n).y + 0 = (dateOf n).y := by omega
-  rw [e0] at hc
-  have hadd : addRel (DT.ymd ⟨dayOf n, 0⟩) 0 (pyInt (.int k)) none
-      = .ok ⟨(Spec.C18.addMonths (dateOf n) k).y, (Spec.C18.addMonths (dateOf n) k).m,
-             (Spec.C18.addMonths (dateOf n) k).d⟩ := by
-    unfold addRel
-    simp only [pyInt, ey, em, ed, hc]
-    have hy : ¬ ((Spec.C18.monthShift (dateOf n).y (dateOf n).m k).1 < 1 ∨
-        (Spec.C18.monthShift (dateOf n).y (dateOf n).m k).1 > 9999) := by
-      have := hr; unfold Spec.C18.addMonths at this; simp only [] at this
-      omega
-    simp only [if_neg hy]
-    unfold Spec.C18.addMonths
-    simp only [Option.getD]
-    congr 2
-    rw [dim_eq]
-    omega
-  rw [hadd]
-  simp only []
-  have hdt := dtOfYMD_valid ⟨(Spec.C18.addMonths (dateOf n) k).y, (Spec.C18.addMonths (dateOf n) k).m,
-    (Spec.C18.addMonths (dateOf n) k).d⟩ hv hr.1 hr.2 0
-  rw [hdt]
-  simp only []
-  have et : toSpec ⟨(Spec.C18.addMonths (dateOf n) k).y, (Spec.C18.addMonths (dateOf n) k).m,
-    (Spec.C18.addMonths (dateOf n) k).d⟩ = Spec.C18.addMonths (dateOf n) k := rfl
-  rw [et]
-  have := day_neg_iff (Spec.C18.addMonths (dateOf n) k)
-  by_cases hneg : serialOf (Spec.C18.addMonths (dateOf n) k) < 1
-  · simp only [if_pos hneg, if_pos (this.mpr hneg)]
-  · simp only [if_neg hneg, if_neg (fun h => hneg (this.mp h))]
-
-
-/-- `edate_clip`: EDATE moves a serial by whole months and clips the day to the end of the target
-    month; a result before 1900-01-01 is #NUM! (the shifted year must exist as a `datetime`) -/
-theorem edate_clip (n k : Int) (h : IsSerial n)
-    (hr : 1 ≤ (Spec.C18.addMonths (dateOf n) k).y ∧ (Spec.C18.addMonths (dateOf n) k).y ≤ 9999) :
+/-- `edate_clip`: EDATE moves every serial by whole months and clips the day to the end of the target
+    month; a result outside 1900-01-01 … 9999-12-31 is #NUM! -/
+theorem edate_clip (n k : Int) (h : IsSerial n) :
     serialRes (EDATE ⟨dayOf n, 0⟩ (.int k)) =
       match Spec.C18.edate (dateOf n) k with
       | some s => .ok (s : Rat)
       | none => .err .num := by
-  have hs := serial_date_spec n h
-  have hv := addMonths_valid (dateOf n) hs.1 k
-  have hor := ordinal_range _ hv hr.1 hr.2
-  unfold EDATE Spec.C18.edate
-  rw [edateCore_eq n k h hr]
-  simp only []
-  by_cases hneg : serialOf (Spec.C18.addMonths (dateOf n) k) < 1
-  · simp only [if_pos hneg]; rfl
-  · simp only [if_neg hneg]
-    have hd0 : 0 ≤ ordinal (Spec.C18.addMonths (dateOf n) k) - 693596 := by
-      have := day_neg_iff (Spec.C18.addMonths (dateOf n) k); omega
-    unfold Res.bind
-    simp only []
-    rw [datetime_roundtrip _ hd0 (by rw [maxDay_eq]; omega)]
-    unfold serialRes Res.map
-    simp only []
-    rw [number_of_date]
-
-theorem serial_lt_one_iff (c : Date) (hv : c.Valid) : serialOf c < 1 ↔ c.y < 1900 := by
-  have hb := ordinal_bounds c hv
-  have e1 : daysBeforeYear 1900 = 693595 := by decide
-  unfold serialOf serialOfOrdinal
-  simp only []
-  constructor
-  · intro hlt
-    apply Classical.byContradiction; intro hc
-    have := dby_mono 1900 c.y (by omega)
-    split at hlt <;> omega
-  · intro hlt
-    have := dby_mono (c.y + 1) 1900 (by omega)
-    split <;> omega
-
-theorem endOfMonth_valid (c : Date) (hv : c.Valid) : (Spec.C18.endOfMonth c).Valid := by
-  have := dim_pos c.y c.m
-  obtain ⟨h1, h12, _, _⟩ := hv
-  unfold Spec.C18.endOfMonth
-  refine ⟨h1, h12, ?_, ?_⟩ <;> simp only [] <;> omega
+  apply Lemmas.C18Fn.edate_clip <;> assumption
 
 /-- `eomonth`: EOMONTH is the last day of the month reached by moving whole months -/
-theorem eomonth_spec (n k : Int) (h : IsSerial n)
-    (hr : 1 ≤ (Spec.C18.addMonths (dateOf n) k).y ∧ (Spec.C18.addMonths (dateOf n) k).y ≤ 9999) :
+theorem eomonth_spec (n k : Int) (h : IsSerial n) :
     EOMONTH ⟨dayOf n, 0⟩ (.int k) =
       match Spec.C18.eomonth (dateOf n) k with
       | some s => .ok (s : Rat)
       | none => .err .num := by
-  have hs := serial_date_spec n h
-  have hv := addMonths_valid (dateOf n) hs.1 k
-  have hve := endOfMonth_valid _ hv
-  have h1 := serial_lt_one_iff _ hv
-  have h2 := serial_lt_one_iff _ hve
-  have ey : (Spec.C18.endOfMonth (Spec.C18.addMonths (dateOf n) k)).y = (Spec.C18.addMonths (dateOf n) k).y := rfl
-  rw [ey] at h2
-  unfold EOMONTH Spec.C18.eomonth
-  rw [edateCore_eq n k h hr]
-  simp only []
-  by_cases hneg : serialOf (Spec.C18.addMonths (dateOf n) k) < 1
-  · have : serialOf (Spec.C18.endOfMonth (Spec.C18.addMonths (dateOf n) k)) < 1 := h2.mpr (h1.mp hneg)
-    simp only [if_pos hneg, if_pos this]; rfl
-  · have : ¬ serialOf (Spec.C18.endOfMonth (Spec.C18.addMonths (dateOf n) k)) < 1 :=
-      fun hh => hneg (h1.mpr (h2.mp hh))
-    simp only [if_neg hneg, if_neg this]
-    unfold Res.bind
-    simp only []
-    generalize hc : Spec.C18.addMonths (dateOf n) k = c at *
-    have hy := ymd_of_valid ⟨c.y, c.m, c.d⟩ hv 0
-    have et : toSpec ⟨c.y, c.m, c.d⟩ = c := rfl
-    rw [et] at hy
-    rw [hy]
-    have hcar := carryYM_eq c.y c.m 0 0 hv.1 hv.2.1
-    have hsh : Spec.C18.monthShift (c.y + 0) c.m 0 = (c.y, c.m) := by
-      obtain ⟨hm1, hm12, _, _⟩ := hv
-      unfold Spec.C18.monthShift; apply Prod.ext <;> simp only [] <;> omega
-    rw [hsh] at hcar
-    unfold addRel
-    simp only [hcar]
-    have hyr : ¬ (c.y < 1 ∨ c.y > 9999) := by omega
-    simp only [if_neg hyr]
-    have hmin : min (daysInMonth c.y c.m) (Option.getD (some 31) c.d) = Spec.C18.daysInMonth c.y c.m := by
-      have := dim_pos c.y c.m
-      rw [dim_eq] at this ⊢
-      simp only [Option.getD]; omega
-    rw [hmin]
-    have hdt := dtOfYMD_valid ⟨c.y, c.m, Spec.C18.daysInMonth c.y c.m⟩ hve hr.1 hr.2 0
-    rw [hdt]
-    unfold Res.map
-    simp only []
-    have et2 : toSpec ⟨c.y, c.m, Spec.C18.daysInMonth c.y c.m⟩ = Spec.C18.endOfMonth c := rfl
-    rw [et2, number_of_date]
+  apply Lemmas.C18Fn.eomonth_spec <;> assumption
 
-/-- non-vacuity: 31 January + 1 month clips to the end of February; the leap day is kept in 2020 -/
+/-- non-vacuity: 31 January + 1 month clips to the end of February; the leap day is kept in 2020;
+    D1801 (fixed): 1900-02-01 minus one month is serial 1; D1805 (fixed): beyond 9999 is #NUM! -/
 example : IsSerial 43861 ∧ dateOf 43861 = ⟨2020, 1, 31⟩ ∧ Spec.C18.edate (dateOf 43861) 1 = some 43890
     ∧ Spec.C18.addMonths (dateOf 43861) 1 = ⟨2020, 2, 29⟩ ∧ Spec.C18.addMonths (dateOf 43861) 13 = ⟨2021, 2, 28⟩
-    ∧ Spec.C18.eomonth (dateOf 43861) (-2) = some 43799 := by decide
+    ∧ Spec.C18.eomonth (dateOf 43861) (-2) = some 43799 ∧ Spec.C18.edate (dateOf 32) (-1) = some 1
+    ∧ Spec.C18.eomonth (dateOf 1) 0 = some 31 ∧ Spec.C18.edate (dateOf 2958465) 1 = none := by decide
 
 /-! ### The fraction of a serial is the time of day (and D45: not on the way back) -/
-
-theorem floor_int_add_frac (n : Int) (f : Rat) (hf0 : 0 ≤ f) (hf1 : f < 1) : ((n : Rat) + f).floor = n := by
-  rw [Rat.add_comm, Rat.floor_add_intCast]
-  have h1 : f.floor < 1 := Rat.floor_lt_iff.mpr (by exact_mod_cast hf1)
-  have h2 : (0 : Int) ≤ f.floor := Rat.le_floor_iff.mpr (by exact_mod_cast hf0)
-  omega
 
 /-- serial → datetime puts the fraction of the serial into the time of day, on every serial
     (also on serial 59, D1802) -/
 theorem fraction_is_time (n : Int) (f : Rat) (h : IsSerial n) (hf0 : 0 ≤ f) (hf1 : f < 1) :
     numberToDatetime (.flt ((n : Rat) + f)) = .ok ⟨dayOf n, f * 86400⟩ := by
-  have hfl := floor_int_add_frac n f hf0 hf1
-  have hn : (1 : Rat) ≤ (n : Rat) := by exact_mod_cast h.1
-  unfold numberToDatetime
-  have hpy : pyInt (.flt ((n : Rat) + f)) = n := by
-    unfold pyInt
-    simp only []
-    rw [if_neg (by linarith), hfl]
-  have hq : (Num.flt ((n : Rat) + f)).toRat = (n : Rat) + f := rfl
-  rw [hpy, hq]
-  simp only [hfl]
-  have hge : ((n : Rat) + f ≥ 60) ↔ n ≥ 60 := by
-    constructor
-    · intro hh
-      apply Classical.byContradiction; intro hc
-      have : (n : Rat) ≤ 59 := by exact_mod_cast (by omega : n ≤ 59)
-      linarith
-    · intro hh
-      have : (60 : Rat) ≤ (n : Rat) := by exact_mod_cast hh
-      linarith
-  simp only [hge]
-  have e : ((n : Rat) + f - (n : Rat)) * 86400 = f * 86400 := by ring
-  rw [e]
-  unfold dayOf
-  apply mkDT_ok <;> split <;> omega
+  apply Lemmas.C18Fn.fraction_is_time <;> assumption
 
 example : numberToDatetime (.flt ((59 : Int) + 1 / 2)) = .ok ⟨58, 43200⟩ := by
-  rw [fraction_is_time 59 (1 / 2) (by decide) (by norm_num) (by norm_num)]
+  rw [Lemmas.C18Fn.fraction_is_time 59 (1 / 2) (by decide) (by norm_num) (by norm_num)]
   simp [dayOf]; norm_num
 
 /-
@@ -735,52 +268,35 @@ example : numberToDatetime (.flt ((59 : Int) + 1 / 2)) = .ok ⟨58, 43200⟩ := 
   It is FALSE for the code as written (`delta.seconds / 24 * 60 * 60` multiplies by 150 instead of
   dividing by 86400): the kernel-checked counter-example below is 2020-01-01 12:00.
 -/
+
 theorem time_is_fraction_counterexample :
-    datetimeToNumber ⟨43829, 43200⟩ = 6523831 ∧ (6523831 : Rat) ≠ 43831 + 43200 / 86400 := by
-  constructor
-  · decide +kernel
-  · norm_num
+    datetimeToNumber ⟨43829, 43200⟩ = 6523831 ∧ (6523831 : Rat) ≠ 43831 + 43200 / 86400 :=
+  Lemmas.C18Fn.time_is_fraction_counterexample
 
 /-- what the code does compute: 150 "days" per second -/
 theorem datetime_to_number_as_coded (d : Int) (s : Int) :
     datetimeToNumber ⟨d, (s : Rat)⟩ = ((d + (if d > 58 then 2 else 1) : Int) : Rat) + 150 * (s : Rat) := by
-  unfold datetimeToNumber
-  simp only [Rat.floor_intCast]
-  ring
+  apply Lemmas.C18Fn.datetime_to_number_as_coded <;> assumption
 
 /-- the guarded version that holds: at midnight the serial is whole and exact -/
 theorem time_is_fraction_partial (d : Int) :
     datetimeToNumber ⟨d, 0⟩ = ((d + (if d > 58 then 2 else 1) : Int) : Rat) + 0 / 86400 := by
-  rw [datetimeToNumber_whole]; norm_num
-
+  apply Lemmas.C18Fn.time_is_fraction_partial <;> assumption
 
 /-! ### DAYS, DATEDIF, YEARFRAC -/
-
-/-- the calendar days between two serials -/
-theorem dayOf_sub (n1 n2 : Int) (h1 : IsSerial n1) (h2 : IsSerial n2) :
-    dayOf n2 - dayOf n1 = ordinal (dateOf n2) - ordinal (dateOf n1) := by
-  have e1 := (spec_of_civil (dayOf n1 + epochCivil)).2
-  have e2 := (spec_of_civil (dayOf n2 + epochCivil)).2
-  show _ = ordinal (toSpec (civilFromDays (dayOf n2 + epochCivil))) - ordinal (toSpec (civilFromDays (dayOf n1 + epochCivil)))
-  omega
 
 /-- `days_sub`: DAYS is the difference of the serials; on one side of the fictitious 29 February 1900
     that is the number of calendar days between the dates -/
 theorem days_sub (n1 n2 : Int) (_h1 : IsSerial n1) (_h2 : IsSerial n2) :
     DAYS ⟨dayOf n2, 0⟩ ⟨dayOf n1, 0⟩ = .ok ((n2 - n1 : Int) : Rat) := by
-  unfold DAYS
-  rw [datetimeToNumber_whole, datetimeToNumber_whole, ← Rat.intCast_sub]
-  congr 2
-  unfold dayOf
-  split <;> split <;> split <;> split <;> omega
+  apply Lemmas.C18Fn.days_sub <;> assumption
 
 theorem days_calendar (n1 n2 : Int) (h1 : IsSerial n1) (h2 : IsSerial n2)
     (hside : (n1 < 60 ∧ n2 < 60) ∨ (60 < n1 ∧ 60 < n2)) :
     n2 - n1 = ordinal (dateOf n2) - ordinal (dateOf n1) := by
-  rw [← dayOf_sub n1 n2 h1 h2]; unfold dayOf; split <;> split <;> omega
+  apply Lemmas.C18Fn.days_calendar <;> assumption
 
-theorem number_serial (n : Int) (h : IsSerial n) : datetimeToNumber ⟨dayOf n, 0⟩ = (n : Rat) := by
-  rw [datetimeToNumber_whole]; congr 1; unfold dayOf; split <;> split <;> omega
+example : IsSerial 43831 ∧ IsSerial 43800 ∧ ((43800 : Int) < 60 ∧ (43831 : Int) < 60 ∨ (60 : Int) < 43800 ∧ (60 : Int) < 43831) := by decide
 
 /-- `datedif_spec`: for two serials in order, DATEDIF gives the calendar days ("D"), the complete
     months ("M") and the complete years ("Y") between the dates, in either letter case -/
@@ -791,121 +307,12 @@ theorem datedif_spec (n1 n2 : Int) (h1 : IsSerial n1) (h2 : IsSerial n2) (hle : 
     DATEDIF ⟨dayOf n1, 0⟩ ⟨dayOf n2, 0⟩ ['d'] = DATEDIF ⟨dayOf n1, 0⟩ ⟨dayOf n2, 0⟩ ['D'] ∧
     DATEDIF ⟨dayOf n1, 0⟩ ⟨dayOf n2, 0⟩ ['m'] = DATEDIF ⟨dayOf n1, 0⟩ ⟨dayOf n2, 0⟩ ['M'] ∧
     DATEDIF ⟨dayOf n1, 0⟩ ⟨dayOf n2, 0⟩ ['y'] = DATEDIF ⟨dayOf n1, 0⟩ ⟨dayOf n2, 0⟩ ['Y'] := by
-  have hgt : ¬ datetimeToNumber ⟨dayOf n1, 0⟩ > datetimeToNumber ⟨dayOf n2, 0⟩ := by
-    rw [number_serial n1 h1, number_serial n2 h2]
-    have : (n1 : Rat) ≤ (n2 : Rat) := by exact_mod_cast hle
-    linarith
-  have hv1 := (serial_date_spec n1 h1).1
-  have hv2 := (serial_date_spec n2 h2).1
-  have hday : dayOf n1 ≤ dayOf n2 := by unfold dayOf; split <;> split <;> omega
-  have hsub := dayOf_sub n1 n2 h1 h2
-  have core : ∀ u : List Char, DATEDIF ⟨dayOf n1, 0⟩ ⟨dayOf n2, 0⟩ u =
-      (let a := DT.ymd ⟨dayOf n1, 0⟩
-       let b := DT.ymd ⟨dayOf n2, 0⟩
-       let months0 := (b.y - a.y) * 12 + (b.m - a.m)
-       let months := if b.d < a.d then months0 - 1 else months0
-       let u := u.map upperChar
-       if u = ['Y'] then .ok (months / 12)
-       else if u = ['M'] then .ok months
-       else if u = ['D'] then .ok (rruleDailyCount (dayOf n1) (dayOf n2))
-       else if u = ['M', 'D'] then
-         (replaceYMD ⟨1900, 1, a.d⟩).bind fun x => (replaceYMD ⟨1900, 1, b.d⟩).bind fun y =>
-           .ok (rruleDailyCount x.day y.day)
-       else if u = ['Y', 'M'] then .ok ((if a.m ≤ b.m then b.m - a.m + 1 else 0) - 1)
-       else if u = ['Y', 'D'] then
-         (replaceYMD ⟨1900, a.m, a.d⟩).bind fun x => (replaceYMD ⟨1900, b.m, b.d⟩).bind fun y =>
-           .ok (rruleDailyCount x.day y.day)
-       else .ok 0) := by
-    intro u
-    unfold DATEDIF
-    rw [if_neg hgt, dtInt_serial n1 h1, dtInt_serial n2 h2, number_to_datetime_whole n1 h1,
-      number_to_datetime_whole n2 h2]
-    rfl
-  have ud : ['d'].map upperChar = ['D'] := by decide
-  have um : ['m'].map upperChar = ['M'] := by decide
-  have uy : ['y'].map upperChar = ['Y'] := by decide
-  have uD : ['D'].map upperChar = ['D'] := by decide
-  have uM : ['M'].map upperChar = ['M'] := by decide
-  have uY : ['Y'].map upperChar = ['Y'] := by decide
-  refine ⟨?_, ?_, ?_, ?_, ?_, ?_⟩
-  · rw [core]; simp only [uD, if_true]
-    rw [if_neg (by decide), if_neg (by decide)]
-    unfold rruleDailyCount; rw [if_pos hday]; congr 1; omega
-  · rw [core]; simp only [uM, if_true]
-    rw [if_neg (by decide)]
-    unfold Spec.C18.completeMonths
-    show Res.ok (if (dateOf n2).d < (dateOf n1).d then
-      ((dateOf n2).y - (dateOf n1).y) * 12 + ((dateOf n2).m - (dateOf n1).m) - 1
-      else ((dateOf n2).y - (dateOf n1).y) * 12 + ((dateOf n2).m - (dateOf n1).m)) = _
-    congr 1
-    split <;> omega
-  · rw [core]; simp only [uY, if_true]
-    unfold Spec.C18.completeYears
-    show Res.ok ((if (dateOf n2).d < (dateOf n1).d then
-      ((dateOf n2).y - (dateOf n1).y) * 12 + ((dateOf n2).m - (dateOf n1).m) - 1
-      else ((dateOf n2).y - (dateOf n1).y) * 12 + ((dateOf n2).m - (dateOf n1).m)) / 12) = _
-    obtain ⟨ha1, ha12, _, _⟩ := hv1
-    obtain ⟨hb1, hb12, _, _⟩ := hv2
-    congr 1
-    split <;> split <;> omega
-  · rw [core, core]; simp only [ud, uD]
-  · rw [core, core]; simp only [um, uM]
-  · rw [core, core]; simp only [uy, uY]
+  apply Lemmas.C18Fn.datedif_spec <;> assumption
 
 /-- D47 (fixed): from a 31st, the months that lack a 31st are no longer skipped -/
 example : IsSerial 43861 ∧ IsSerial 44255 ∧ dateOf 43861 = ⟨2020, 1, 31⟩ ∧ dateOf 44255 = ⟨2021, 2, 28⟩ ∧
     Spec.C18.completeMonths (dateOf 43861) (dateOf 44255) = 12 ∧
     Spec.C18.completeYears (dateOf 43861) (dateOf 44255) = 1 := by decide
-
-
-theorem deltaDays_whole (d1 d2 : Int) : deltaDays ⟨d1, 0⟩ ⟨d2, 0⟩ = d2 - d1 := by
-  unfold deltaDays
-  simp
-
-/-- YEARFRAC on two whole serials, in either order: the arguments are put in order, then the basis
-    selects the day count -/
-theorem YEARFRAC_whole (n1 n2 : Int) (h1 : IsSerial n1) (h2 : IsSerial n2) (hle : n1 ≤ n2) (b : Int) :
-    (YEARFRAC ⟨dayOf n1, 0⟩ ⟨dayOf n2, 0⟩ (.int b) =
-      if b = 0 then d30360e (DT.ymd ⟨dayOf n1, 0⟩) (DT.ymd ⟨dayOf n2, 0⟩) true
-      else if b = 1 then actAfb (DT.ymd ⟨dayOf n1, 0⟩) (DT.ymd ⟨dayOf n2, 0⟩)
-      else if b = 2 then .ok (((dayOf n2 - dayOf n1 : Int) : Rat) / 360)
-      else if b = 3 then .ok (((dayOf n2 - dayOf n1 : Int) : Rat) / 365)
-      else if b = 4 then d30360e (DT.ymd ⟨dayOf n1, 0⟩) (DT.ymd ⟨dayOf n2, 0⟩) false
-      else .err .value) ∧
-    YEARFRAC ⟨dayOf n2, 0⟩ ⟨dayOf n1, 0⟩ (.int b) = YEARFRAC ⟨dayOf n1, 0⟩ ⟨dayOf n2, 0⟩ (.int b) := by
-  have c1 : ¬ ((n1 : Rat) < 1) := by
-    have : (1 : Rat) ≤ (n1 : Rat) := by exact_mod_cast h1.1
-    linarith
-  have c2 : ¬ ((n2 : Rat) < 1) := by
-    have : (1 : Rat) ≤ (n2 : Rat) := by exact_mod_cast h2.1
-    linarith
-  have c3 : ¬ ((n1 : Rat) > (n2 : Rat)) := by
-    have : (n1 : Rat) ≤ (n2 : Rat) := by exact_mod_cast hle
-    linarith
-  have hb : ∀ k : Int, ((Num.int b).toRat = (k : Rat)) ↔ b = k := by
-    intro k; rw [toRat_int]; exact Rat.intCast_inj
-  have hb0 := hb 0; have hb1 := hb 1; have hb2 := hb 2; have hb3 := hb 3; have hb4 := hb 4
-  simp only [Int.cast_ofNat, Int.cast_zero, Int.cast_one] at hb0 hb1 hb2 hb3 hb4
-  have first : YEARFRAC ⟨dayOf n1, 0⟩ ⟨dayOf n2, 0⟩ (.int b) =
-      if b = 0 then d30360e (DT.ymd ⟨dayOf n1, 0⟩) (DT.ymd ⟨dayOf n2, 0⟩) true
-      else if b = 1 then actAfb (DT.ymd ⟨dayOf n1, 0⟩) (DT.ymd ⟨dayOf n2, 0⟩)
-      else if b = 2 then .ok (((dayOf n2 - dayOf n1 : Int) : Rat) / 360)
-      else if b = 3 then .ok (((dayOf n2 - dayOf n1 : Int) : Rat) / 365)
-      else if b = 4 then d30360e (DT.ymd ⟨dayOf n1, 0⟩) (DT.ymd ⟨dayOf n2, 0⟩) false
-      else .err .value := by
-    unfold YEARFRAC
-    simp only [number_serial n1 h1, number_serial n2 h2, if_neg c1, if_neg c2, if_neg c3,
-      deltaDays_whole, hb0, hb1, hb2, hb3, hb4]
-  refine ⟨first, ?_⟩
-  by_cases heq : n1 = n2
-  · subst heq; rfl
-  · have c4 : (n2 : Rat) > (n1 : Rat) := by
-      have : (n1 : Rat) < (n2 : Rat) := by exact_mod_cast (by omega : n1 < n2)
-      linarith
-    rw [first]
-    unfold YEARFRAC
-    simp only [number_serial n1 h1, number_serial n2 h2, if_neg c1, if_neg c2, if_pos c4,
-      deltaDays_whole, hb0, hb1, hb2, hb3, hb4]
 
 /-- `yearfrac_23`: on the actual bases YEARFRAC is the number of calendar days between the dates
     divided by 360 (basis 2) and by 365 (basis 3), whatever the order of the arguments -/
@@ -918,21 +325,12 @@ theorem yearfrac_23 (n1 n2 : Int) (h1 : IsSerial n1) (h2 : IsSerial n2) (hle : n
       = .ok (((ordinal (dateOf n2) - ordinal (dateOf n1) : Int) : Rat) / 365) ∧
     YEARFRAC ⟨dayOf n2, 0⟩ ⟨dayOf n1, 0⟩ (.int 3)
       = .ok (((ordinal (dateOf n2) - ordinal (dateOf n1) : Int) : Rat) / 365) := by
-  have w2 := YEARFRAC_whole n1 n2 h1 h2 hle 2
-  have w3 := YEARFRAC_whole n1 n2 h1 h2 hle 3
-  have hs := dayOf_sub n1 n2 h1 h2
-  simp only [show ¬ ((2 : Int) = 0) by decide, show ¬ ((2 : Int) = 1) by decide, if_false, if_true] at w2
-  simp only [show ¬ ((3 : Int) = 0) by decide, show ¬ ((3 : Int) = 1) by decide,
-    show ¬ ((3 : Int) = 2) by decide, if_false, if_true] at w3
-  rw [hs] at w2 w3
-  exact ⟨w2.1, by rw [w2.2, w2.1], w3.1, by rw [w3.2, w3.1]⟩
+  apply Lemmas.C18Fn.yearfrac_23 <;> assumption
 
 /-- a basis outside 0 … 4 is #VALUE! -/
 theorem yearfrac_bad_basis (n1 n2 : Int) (h1 : IsSerial n1) (h2 : IsSerial n2) (hle : n1 ≤ n2) (b : Int)
     (hb : b < 0 ∨ 4 < b) : YEARFRAC ⟨dayOf n1, 0⟩ ⟨dayOf n2, 0⟩ (.int b) = .err .value := by
-  rw [(YEARFRAC_whole n1 n2 h1 h2 hle b).1]
-  rw [if_neg (by omega), if_neg (by omega), if_neg (by omega), if_neg (by omega), if_neg (by omega)]
-
+  apply Lemmas.C18Fn.yearfrac_bad_basis <;> assumption
 
 /-
   Bases 0 and 4 (30/360).  GOAL, full strength, on the dates where the US and the European convention
@@ -946,28 +344,13 @@ theorem yearfrac_bad_basis (n1 n2 : Int) (h1 : IsSerial n1) (h2 : IsSerial n2) (
   treats *every* 28 February as day 30 — also in a leap year, where it is not the end of the month.
   Kernel-checked counter-example: 2020-02-28 → 2020-03-28 is 30 days on every 30/360 convention.
 -/
+
 theorem yearfrac_30360_counterexample :
     Spec.C18.Plain360 ⟨2020, 2, 28⟩ ∧ Spec.C18.Plain360 ⟨2020, 3, 28⟩ ∧
     Spec.C18.days360 ⟨2020, 2, 28⟩ ⟨2020, 3, 28⟩ = 30 ∧
     d30360e ⟨2020, 2, 28⟩ ⟨2020, 3, 28⟩ true = .ok (28 / 360) ∧
-    d30360e ⟨2020, 2, 28⟩ ⟨2020, 3, 28⟩ false = .ok (28 / 360) := by decide +kernel
-
-/-- the guarded version that holds: no date is a 28 February (and no day is 29 … 31) -/
-theorem yearfrac_30360_partial (a b : YMD) (ha : a.d ≤ 28 ∧ ¬ (a.m = 2 ∧ a.d = 28))
-    (hb : b.d ≤ 28 ∧ ¬ (b.m = 2 ∧ b.d = 28))
-    (hle : 0 ≤ Spec.C18.days360 (toSpec a) (toSpec b)) (matu : Bool) :
-    d30360e a b matu = .ok ((Spec.C18.days360 (toSpec a) (toSpec b) : Rat) / 360) := by
-  unfold Spec.C18.days360 toSpec at hle ⊢
-  simp only [] at hle ⊢
-  unfold d30360e
-  have e2 : (if b.m = 2 ∧ b.d ≥ 28 then (if matu = true then b.d else 30) else (if b.d > 30 then 30 else b.d)) = b.d := by
-    rw [if_neg (by omega), if_neg (by omega)]
-  have e1 : (if a.m = 2 ∧ a.d ≥ 28 then (30 : Int) else (if a.d > 30 then 30 else a.d)) = a.d := by
-    rw [if_neg (by omega), if_neg (by omega)]
-  simp only [e1, e2]
-  have e3 : 360 * (b.y - a.y) + 30 * (b.m - a.m) + b.d - a.d = 360 * (b.y - a.y) + 30 * (b.m - a.m) + (b.d - a.d) := by
-    omega
-  rw [e3, if_neg (by omega)]
+    d30360e ⟨2020, 2, 28⟩ ⟨2020, 3, 28⟩ false = .ok (28 / 360) :=
+  Lemmas.C18Fn.yearfrac_30360_counterexample
 
 example : (15 : Int) ≤ 28 ∧ ¬ ((3 : Int) = 2 ∧ (15 : Int) = 28) := by decide
 
@@ -978,13 +361,7 @@ theorem yearfrac_04_partial (n1 n2 : Int) (h1 : IsSerial n1) (h2 : IsSerial n2) 
     (hpos : 0 ≤ Spec.C18.days360 (dateOf n1) (dateOf n2)) :
     YEARFRAC ⟨dayOf n1, 0⟩ ⟨dayOf n2, 0⟩ (.int 0) = .ok ((Spec.C18.days360 (dateOf n1) (dateOf n2) : Rat) / 360) ∧
     YEARFRAC ⟨dayOf n1, 0⟩ ⟨dayOf n2, 0⟩ (.int 4) = .ok ((Spec.C18.days360 (dateOf n1) (dateOf n2) : Rat) / 360) := by
-  have w0 := (YEARFRAC_whole n1 n2 h1 h2 hle 0).1
-  have w4 := (YEARFRAC_whole n1 n2 h1 h2 hle 4).1
-  simp only [if_true] at w0
-  simp only [show ¬ ((4 : Int) = 0) by decide, show ¬ ((4 : Int) = 1) by decide,
-    show ¬ ((4 : Int) = 2) by decide, show ¬ ((4 : Int) = 3) by decide, if_false, if_true] at w4
-  rw [w0, w4]
-  exact ⟨yearfrac_30360_partial _ _ ha hb hpos true, yearfrac_30360_partial _ _ ha hb hpos false⟩
+  apply Lemmas.C18Fn.yearfrac_04_partial <;> assumption
 
 example : IsSerial 43905 ∧ IsSerial 44301 ∧ dateOf 43905 = ⟨2020, 3, 15⟩ ∧ dateOf 44301 = ⟨2021, 4, 15⟩ ∧
     Spec.C18.days360 (dateOf 43905) (dateOf 44301) = 390 := by decide
@@ -996,36 +373,18 @@ example : IsSerial 43905 ∧ IsSerial 44301 ∧ dateOf 43905 = ⟨2020, 3, 15⟩
   Excel's actual/actual divides by 366, and counts whole years where Excel averages year lengths.
   Kernel-checked counter-example: 2012-03-01 → 2012-12-31 is 305 days.
 -/
+
 theorem yearfrac_1_counterexample :
     actAfb ⟨2012, 3, 1⟩ ⟨2012, 12, 31⟩ = .ok (305 / 365) ∧
     Spec.C18.yearfrac1 ⟨2012, 3, 1⟩ ⟨2012, 12, 31⟩ = 305 / 366 ∧
-    ((305 : Rat) / 365 - 305 / 366 > 1 / 1000) := by
-  refine ⟨by decide +kernel, by decide +kernel, by norm_num⟩
+    ((305 : Rat) / 365 - 305 / 366 > 1 / 1000) :=
+  Lemmas.C18Fn.yearfrac_1_counterexample
 
 /-- the guarded version that holds exactly: both dates in one common (non-leap) year -/
 theorem yearfrac_1_partial (a b : YMD) (ha : Valid a) (hb : Valid b) (hy : a.y = b.y) (hl : ¬ Leap a.y)
     (hle : ordinal (toSpec a) < ordinal (toSpec b)) :
     actAfb a b = .ok (Spec.C18.yearfrac1 (toSpec a) (toSpec b)) := by
-  have oa : ordinal (toSpec a) = daysFromCivil a - 305 := ordinal_eq a.y a.m a.d ha.1 ha.2.1
-  have ob : ordinal (toSpec b) = daysFromCivil b - 305 := ordinal_eq b.y b.m b.d hb.1 hb.2.1
-  have hy' : (toSpec a).y = (toSpec b).y := hy
-  have hl' : ¬ Spec.C18.Leap (toSpec a).y := hl
-  have hd : daysFromCivil b - daysFromCivil a = ordinal (toSpec b) - ordinal (toSpec a) := by omega
-  unfold actAfb
-  simp only [if_pos hy, hd]
-  rw [if_neg (show ¬ (ordinal (toSpec b) - ordinal (toSpec a) < 0) by omega)]
-  have hden : (if Leap a.y ∧ a.m < 3 then (366 : Rat) else 365) = 365 := if_neg (fun h => hl h.1)
-  rw [hden]
-  unfold Spec.C18.yearfrac1
-  simp only []
-  rw [if_neg (show ¬ (ordinal (toSpec b) - ordinal (toSpec a) = 0) by omega)]
-  have hw : ((toSpec a).y = (toSpec b).y ∨ ((toSpec b).y = (toSpec a).y + 1 ∧
-      ((toSpec a).m > (toSpec b).m ∨ ((toSpec a).m = (toSpec b).m ∧ (toSpec a).d ≥ (toSpec b).d)))) := Or.inl hy'
-  rw [if_pos hw]
-  simp only [if_pos hy']
-  have hdec : decide (Spec.C18.Leap (toSpec a).y) = false := decide_eq_false hl'
-  rw [hdec]
-  simp
+  apply Lemmas.C18Fn.yearfrac_1_partial <;> assumption
 
 example : Valid ⟨2021, 3, 1⟩ ∧ Valid ⟨2021, 12, 31⟩ ∧ ¬ Leap 2021 := by decide
 
